@@ -246,6 +246,7 @@ def run_history(ctx, rng, cls, inst, collecting, ops, pool, models, case):
     exp_rows = 0
     exp_blocks: list[tuple[int, str]] = []
     switched = False
+    scratch = None
     seen_x = set()
     repeated = False
     after_model = False
@@ -254,7 +255,16 @@ def run_history(ctx, rng, cls, inst, collecting, ops, pool, models, case):
         c = dict(case, step=step, op=op)
         before = ghost(obj)
         if op == "evaluate":
-            x = pool[arg]
+            # optimisers hand over the same array object again and again,
+            # overwritten in place: one scratch buffer for every other call
+            if step % 2:
+                if scratch is None:
+                    scratch = np.empty_like(pool[arg])
+                scratch[:] = pool[arg]
+                x = scratch
+                ctx.count("evaluations_from_a_reused_point_buffer")
+            else:
+                x = pool[arg]
             if arg in seen_x:
                 repeated = True
             seen_x.add(arg)
